@@ -99,7 +99,7 @@ def run(ctx: Ctx):
         "several variables in one segment are judged where no value (as spelled in the path) contains a literal character of the segment and adjacent variables are separated by a literal",
         "float min / max are judged for values with at most 6 integer and 3 fraction digits; under sort_parameters the extras are compared as a multiset (exact order is drift)",
     ]
-    for cfg in (("MCBuild_q", "MCBuild_qd", "MCBuild_qg") if q else ("MCBuild_q", "MCBuild_qd", "MCBuild_qg", "MCBuild_t1", "MCBuild_t2", "MCBuild_t3", "MCBuild_t4")):
+    for cfg in (("MCBuild_q", "MCBuild_qd", "MCBuild_qg") if q else ("MCBuild_q", "MCBuild_qd", "MCBuild_qg", "MCBuild_t1", "MCBuild_t2", "MCBuild_t3", "MCBuild_t4", "MCBuild_t5")):
         ctx.model_check(AREA, "MCBuild", cfg, timeout=3000)
     ctx.exhaustive = True
     for cfg, name in (("MCBuild_orig_path", "pre_fix_path_model_violates"), ("MCBuild_orig_any", "pre_fix_any_model_violates"),
